@@ -26,7 +26,7 @@ def setup(exe, seed, style, latency=5):
 def run_exchanges(sim, reqs, fail_tokens):
     """submit the requests one at a time: the next one when the previous has
     concluded (response or NACK seen) - the property's precondition"""
-    state = {"i": 0, "concluded": set()}
+    state = {"i": 0, "concluded": set(), "refused": set()}
     for t in fail_tokens:
         sim.cmd("verdict 0 %s" % t.hex())
 
@@ -37,8 +37,13 @@ def run_exchanges(sim, reqs, fail_tokens):
         typ, code, tok = reqs[i]
         state["i"] += 1
         opts = "11=72" + (",12=" if code in (2, 3, 5) else "")
-        sm.cmd("send 0 0 type=%d code=%d token=%s opts=%s%s" %
-               (typ, code, tok.hex(), opts, " payload=7878" if code in (2, 3, 5) else ""))
+        evs = sm.cmd("send 0 0 type=%d code=%d token=%s opts=%s%s" %
+                     (typ, code, tok.hex(), opts, " payload=7878" if code in (2, 3, 5) else ""))
+        if any(e["e"] == "sent" and e.get("mid", 0) < 0 for e in evs):
+            # coap_send() refused it (the socket write failed): not a request the application
+            # sent; go on with the next one
+            state["refused"].add(tok)
+            sm.call_at(sm.now + 1, submit)
 
     def monitor(sm, ev):
         if ev["e"] in ("rsp", "nack") and ev.get("n") == 0:
@@ -58,9 +63,10 @@ def run_exchanges(sim, reqs, fail_tokens):
             sm.call_at(sm.now + 120000, nudge)
     sim.call_at(sim.now + 120000, nudge)
     sim.run(horizon=900000)
+    return state["refused"]
 
 
-def judge(run, sim, reqs, fail_tokens, witness, stats, lossless):
+def judge(run, sim, reqs, fail_tokens, witness, stats, lossless, refused=()):
     client, server = "10.0.0.1", "10.0.0.2"
     rsp = {}
     nack = {}
@@ -71,20 +77,42 @@ def judge(run, sim, reqs, fail_tokens, witness, stats, lossless):
             nack.setdefault(ev.get("tok", "?"), []).append(ev)
     # wire view
     rx_client = [e for e in sim.log if e["e"] == "rx" and e["to"].startswith(client)]
-    tx_client = [e for e in sim.log if e["e"] == "wire" and e["from"].startswith(client)]
+    # (a write the socket refused - failsend - is a datagram the node sent and the network lost)
+    tx_client = [e for e in sim.log if e["e"] in ("wire", "wirefail") and
+                 e["from"].startswith(client)]
+    stats["failed_writes"] = stats.get("failed_writes", 0) + sum(
+        1 for e in sim.log if e["e"] == "wirefail")
     for typ, code, tokb in reqs:
         tok = tokb.hex()
+        if tokb in refused:
+            stats["refused_by_api"] = stats.get("refused_by_api", 0) + 1
+            continue
         w = dict(witness, token=tok)
         nr, nn = len(rsp.get(tok, [])), len(nack.get(tok, []))
         if typ == 0:
             stats["con_requests"] += 1
             non_rsp_lost = any(
-                e["e"] == "wire" and e["from"].startswith(server) and not e.get("plan") and
+                (e["e"] == "wirefail" or (e["e"] == "wire" and not e.get("plan"))) and
+                e["from"].startswith(server) and
                 (bytes.fromhex(e["b"])[0] >> 4) & 3 == 1 and tokb in bytes.fromhex(e["b"])
                 for e in sim.log)
             srv_gave_up = any(e["e"] == "nack" and e.get("n") == 1 and e.get("tok") == tok
                               for e in sim.log)
-            if nr + nn == 0 and srv_gave_up:
+            srv_wire_mids = set((bytes.fromhex(e["b"])[2] << 8) | bytes.fromhex(e["b"])[3]
+                                for e in sim.log if e["e"] == "wire" and
+                                e["from"].startswith(server))
+            srv_refused = any(
+                e["e"] == "wirefail" and e["from"].startswith(server) and
+                bytes.fromhex(e["b"])[1] >= 64 and tokb in bytes.fromhex(e["b"]) and
+                ((bytes.fromhex(e["b"])[2] << 8) | bytes.fromhex(e["b"])[3]) not in srv_wire_mids
+                for e in sim.log)
+            if nr + nn == 0 and srv_refused:
+                # the first write of the server's separate response failed: coap_send()
+                # returned COAP_INVALID_MID to the server application, which was thereby told
+                # that it has not answered; as for the client, the server did not respond
+                stats["response_refused_at_server_socket"] = \
+                    stats.get("response_refused_at_server_socket", 0) + 1
+            elif nr + nn == 0 and srv_gave_up:
                 # the network swallowed the separate response and all its retransmissions:
                 # the server was told (NACK); nothing can reach the client
                 stats["response_abandoned_by_server"] = \
@@ -265,12 +293,16 @@ def work(job):
                     return [(fr.randint(1, dmax), b)]
                 sim.fault = fault
                 lossless = False
+                failsend = r.choice([1, 2, 2, 3, 3, 4, 5, 6, 8]) if r.random() < 0.25 else 0
+                if failsend:
+                    # the k-th datagram write of the process (either node) fails with ENOBUFS
+                    sim.cmd("failsend %d" % failsend)
                 sig = ("rand", style, nreq, tuple(t for t, _, _ in reqs), bool(fails),
-                       ploss, dmax)
+                       ploss, dmax, failsend)
             witness["style"] = style
-            run_exchanges(sim, reqs, fails)
+            refused = run_exchanges(sim, reqs, fails)
             witness["script"] = w.script[-300:]
-            judge(run, sim, reqs, fails, witness, stats, lossless)
+            judge(run, sim, reqs, fails, witness, stats, lossless, refused)
             world.teardown_check(run, "C07", w, witness)
             sigs.add(sig)
             n += 1
